@@ -92,7 +92,8 @@ def _cases(draw, tier):
         items = [{'t': 'mute', 'kw': 'mute'}] + items
         feats.add('everything-muted')
     return {'isa': cfg, 'items': items, 'start': start, 'end': end, 'fill': draw(st.integers(0, 255)),
-            'feats': sorted(feats), 'stale_output': draw(st.integers(0, 3)) == 0}
+            'feats': sorted(feats), 'stale_output': draw(st.integers(0, 3)) == 0,
+            'verbose': draw(st.sampled_from([0, 0, 0, 1, 2, 3]))}
 
 
 def strategy(tier):
@@ -148,7 +149,7 @@ def execute(case, ctx):
     argv = ['compile', '-c', fname, '-o', 'out.bin', '-s', str(case['start'])]
     if case['end'] is not None:
         argv += ['-e', str(case['end'])]
-    argv += ['-f', str(case['fill']), 'main.asm']
+    argv += ['-f', str(case['fill'])] + ['-v'] * case.get('verbose', 0) + ['main.asm']      # logging changes no output
     if case.get('stale_output'):
         # an older, longer image already sits at the output path: nothing of it may survive
         files['out.bin'] = b'\x5a' * (len(want) + 41)
